@@ -15,7 +15,7 @@ theorem tsAt_cancel {s : St} (j : Nat) :
   · rename_i h; rw [List.getElem?_eq_none (by omega)]; rfl
 
 /-- the control part of an S step: own/thd/spc before and after; everything else but ts, and the logs, is unchanged -/
-theorem minv_s {s s' : St} {a : SAct} (hm : MInv s) (hs : sStep s a = some s') : MInv s' := by
+theorem minv_s {s s' : St} {a : SAct} (hm : MInv s) (hcv : CInv s) (hs : sStep s a = some s') : MInv s' := by
   have ⟨h1, h2, h3, h4, h5, h6, h7, h8, h9⟩ := hm
   cases a with
   | sigwait g =>
@@ -229,6 +229,17 @@ theorem minv_s {s s' : St} {a : SAct} (hm : MInv s) (hs : sStep s a = some s') :
     simp only [sStep] at hs
     split at hs <;> (try split at hs) <;> simp at hs; subst hs
     exact ⟨h1, h2, h3, h4, h5, h6, h7, h8, h9⟩
+  | die =>
+    simp only [sStep] at hs
+    split at hs <;> simp at hs; subst hs
+    rename_i hg
+    refine { ownD := h1, ownW := h2, ownS1 := ?_, ownS2 := ?_, thdD := h5, thdW := h6, thdS1 := ?_, thdS2 := ?_,
+             canc := ?_ }
+    · intro hc; cases hc
+    · intro _; exact Or.inr rfl
+    · intro hc; simp [SPC.holdsT] at hc
+    · intro _; exact Or.inr rfl
+    · intro _; exact hcv.fin hg.1
 
 /-- the only S step that touches `ws`, `ts`, `tc`, the dispatcher or `sig` is the cancellation -/
 theorem s_step_frame {s s' : St} {a : SAct} (hs : sStep s a = some s') :
@@ -294,12 +305,17 @@ theorem ginv_e {s s' : St} {a : EAct} (hw : GInv s) (hs : eStep s a = some s') :
   cases a <;> simp only [eStep] at hs <;> (try split at hs) <;> simp at hs <;> subst hs <;>
     exact ⟨g1, g2, g3, g4, g5, g6, g7, g8, g9, g10, g11⟩
 
+theorem cinv_e {s s' : St} {a : EAct} (hc : CInv s) (hs : eStep s a = some s') : CInv s' := by
+  have ⟨c1, c2, c3, c4⟩ := hc
+  cases a <;> simp only [eStep] at hs <;> (try split at hs) <;> simp at hs <;> subst hs <;> exact ⟨c1, c2, c3, c4⟩
+
 theorem inv_e {s s' : St} {a : EAct} (h : Inv s) (hs : eStep s a = some s') : Inv s' := by
   obtain ⟨hws, hts, htc, hdpc, hi, hsig, hff, hown, hthd, hspc⟩ := e_step_frame hs
   have hpc : ∀ j, pc s' j = pc s j := pc_congr hws
   have hfr : frontier s' = frontier s := by simp [frontier, hdpc, hi]
-  obtain ⟨⟨m1, m2, m3, m4, m5, m6, m7, m8, m9⟩, ⟨t1, t2⟩, ⟨f1, f2, f3, f4, f5, f6, f7, f8, f9, f10⟩, hwd⟩ := h
-  refine ⟨⟨?_, ?_, ?_, ?_, ?_, ?_, ?_, ?_, ?_⟩, ⟨?_, ?_⟩, ⟨?_, ?_, ?_, ?_, ?_, ?_, ?_, ?_, ?_, ?_⟩, ginv_e hwd hs⟩
+  obtain ⟨⟨m1, m2, m3, m4, m5, m6, m7, m8, m9⟩, ⟨t1, t2⟩, ⟨f1, f2, f3, f4, f5, f6, f7, f8, f9, f10⟩, hwd, hcv⟩ := h
+  refine ⟨⟨?_, ?_, ?_, ?_, ?_, ?_, ?_, ?_, ?_⟩, ⟨?_, ?_⟩, ⟨?_, ?_, ?_, ?_, ?_, ?_, ?_, ?_, ?_, ?_⟩, ginv_e hwd hs,
+          cinv_e hcv hs⟩
   · rw [hown, hdpc]; exact m1
   · intro j; rw [hown, hpc]; exact m2 j
   · rw [hown, hspc]; exact m3
@@ -603,36 +619,38 @@ theorem ginv_d {s s' : St} {a : DAct} (hm : MInv s) (hw : GInv s) (hs : dStep s 
     | cancelS =>
       simp only [dStep] at hs
       split at hs <;> (try split at hs) <;> simp at hs; subst hs
-      rename_i hd hg
-      refine ⟨g1, g2, g3, g4, g5, g6, g7, ?_, g9, ?_, ?_⟩
-      · intro h1 h2
-        rcases g11 (g8 h1 h2) with h | h <;> rw [hd] at h <;> cases h
-      · intro _ hsw
-        cases hj : s.gjoin with
-        | true => rfl
-        | false => exact absurd (Or.inr ⟨hsw, hj⟩) hg
-      · intro hc; cases hc
+      exact ⟨g1, g2, g3, g4, g5, g6, g7, g8, g9, g10, g11⟩
     | ret =>
       simp only [dStep] at hs
       split at hs <;> (try split at hs) <;> simp at hs; subst hs
       rename_i hd hc
       refine ⟨g1, g2, g3, g4, ?_, g6, g7, g8, g9, g10, ?_⟩
       · intro h; have := g5 h; exact ⟨this.1, this.2.1, Or.inr rfl⟩
-      · intro h; have h' : s.spc = .off := h; rw [hc] at h'; cases h'
+      · intro h; rcases g11 h with h' | h' <;> rw [hd] at h' <;> cases h'
     | lock | wait | wake _ | relock | create _ | unlock => exact absurd (by simp) ha
 
 /-- what a step of the signals thread does to the mutexes and to its own program counter, in general -/
-theorem s_step_ctl {s s' : St} {a : SAct} (hs : sStep s a = some s') :
+theorem s_step_ctl {s s' : St} {a : SAct} (ha : a ≠ .die) (hs : sStep s a = some s') :
     s'.gpc = s.gpc ∧ s'.gcan = s.gcan ∧ s'.gjoin = s.gjoin ∧ s'.sw = s.sw ∧
     s.spc ≠ .off ∧ s'.spc ≠ .off ∧ s'.spc ≠ .cancelled ∧
     (s'.thd = s.thd ∨ (s.thd = .none ∧ s'.thd = .s) ∨ (s.spc.holdsT = true ∧ s'.thd = .none)) ∧
     (s'.own = s.own ∨ s'.own = .s ∨ s'.own = .none) := by
-  cases a <;> simp only [sStep] at hs <;> (repeat' split at hs) <;> simp at hs <;>
+  cases a <;> (first | exact absurd rfl ha | skip) <;>
+    simp only [sStep] at hs <;> (repeat' split at hs) <;> simp at hs <;>
     (try (obtain ⟨_, hs⟩ := hs)) <;> (try subst hs) <;> simp_all [SPC.holdsT] <;> (try (split <;> simp))
 
-theorem ginv_s {s s' : St} {a : SAct} (hm : MInv s) (hw : GInv s) (hs : sStep s a = some s') : GInv s' := by
+theorem ginv_s {s s' : St} {a : SAct} (hm : MInv s) (hw : GInv s) (hcv : CInv s) (hs : sStep s a = some s') :
+    GInv s' := by
   have ⟨g1, g2, g3, g4, g5, g6, g7, g8, g9, g10, g11⟩ := hw
-  obtain ⟨e1, e2, e3, e4, hnoff, hnoff', hnc', hthd, hown⟩ := s_step_ctl hs
+  by_cases ha : a = .die
+  · subst ha
+    simp only [sStep] at hs
+    split at hs <;> simp at hs; subst hs
+    rename_i hg
+    refine ⟨g1, g2, g3, g4, g5, g6, g7, ?_, g9, fun _ hsw => hcv.joined hg.1 hsw, ?_⟩
+    · intro h1 h2; exact absurd (g8 h1 h2) hg.2.1
+    · intro hc; cases hc
+  obtain ⟨e1, e2, e3, e4, hnoff, hnoff', hnc', hthd, hown⟩ := s_step_ctl ha hs
   obtain ⟨_, _, hdpc, _, _, _, hts⟩ := s_step_frame hs
   have hlen : s'.ts.length = s.ts.length := by rcases hts with h | ⟨_, h⟩ <;> rw [h]; simp
   refine ⟨?_, ?_, ?_, ?_, ?_, ?_, ?_, ?_, ?_, ?_, ?_⟩
@@ -660,15 +678,50 @@ theorem ginv_s {s s' : St} {a : SAct} (hm : MInv s) (hw : GInv s) (hs : sStep s 
   · intro hc; exact absurd hc hnc'
   · intro hc; exact absurd hc hnoff'
 
+/-! ## the cancellation request for the signals thread -/
+
+theorem cinv_d {s s' : St} {a : DAct} (hc : CInv s) (hs : dStep s a = some s') : CInv s' := by
+  have ⟨c1, c2, c3, c4⟩ := hc
+  cases a <;> simp only [dStep] at hs <;> (repeat' split at hs) <;> simp [roomTest, drainTest] at hs <;>
+    (try split at hs) <;> (try (obtain ⟨_, hs⟩ := hs)) <;> (try subst hs) <;>
+    (refine ⟨?_, ?_, ?_, ?_⟩ <;> simp_all)
+
+theorem cinv_w {s s' : St} {i : Nat} {a : WAct} (hc : CInv s) (hs : wStep s i a = some s') : CInv s' := by
+  obtain ⟨p, q, _, rfl⟩ := w_facts hs
+  have ⟨c1, c2, c3, c4⟩ := hc
+  have e : ∀ x : St, (wEffect i x a).scan = x.scan ∧ (wEffect i x a).gjoin = x.gjoin ∧
+      (wEffect i x a).sw = x.sw ∧ (wEffect i x a).spc = x.spc ∧ (wEffect i x a).dpc = x.dpc := by
+    intro x; cases a <;> simp [wEffect]
+  obtain ⟨e1, e2, e3, e4, e5⟩ := e { s with ws := s.ws.set i q, ts := s.ts.set i (wWrite s.g a p (tsAt s i)) }
+  refine ⟨?_, ?_, ?_, ?_⟩
+  · rw [e1, e5]; exact c1
+  · rw [e1, e2, e3]; exact c2
+  · rw [e1, e4]; exact c3
+  · rw [e1, e3, e4, e5]; exact c4
+
+theorem cinv_s {s s' : St} {a : SAct} (hc : CInv s) (hs : sStep s a = some s') : CInv s' := by
+  have ⟨c1, c2, c3, c4⟩ := hc
+  cases a <;> simp only [sStep] at hs <;> (repeat' split at hs) <;> simp at hs <;>
+    (try (obtain ⟨_, hs⟩ := hs)) <;> (try subst hs) <;>
+    (refine ⟨?_, ?_, ?_, ?_⟩ <;> simp_all)
+
 /-! ## every step -/
 
 theorem inv_step {s s' : St} {l : Label} (h : Inv s) (hs : step s l = some s') : Inv s' := by
   cases l with
-  | d a => have hd := step_d hs; exact ⟨minv_d h.m h.f hd, tinv_d h.t h.f hd, finv_d h.m h.t h.f hd, ginv_d h.m h.w hd⟩
-  | w i a => have hd := step_w hs; exact ⟨minv_w h.m hd, tinv_w h.t hd, finv_w h.m h.t h.f hd, ginv_w h.m h.w hd⟩
-  | s a => have hd := step_s hs; exact ⟨minv_s h.m hd, tinv_s h.t hd, finv_s h.t h.f hd, ginv_s h.m h.w hd⟩
+  | d a =>
+    have hd := step_d hs
+    exact ⟨minv_d h.m h.f hd, tinv_d h.t h.f hd, finv_d h.m h.t h.f hd, ginv_d h.m h.w hd, cinv_d h.c hd⟩
+  | w i a =>
+    have hd := step_w hs
+    exact ⟨minv_w h.m hd, tinv_w h.t hd, finv_w h.m h.t h.f hd, ginv_w h.m h.w hd, cinv_w h.c hd⟩
+  | s a =>
+    have hd := step_s hs
+    exact ⟨minv_s h.m h.c hd, tinv_s h.t hd, finv_s h.t h.f hd, ginv_s h.m h.w h.c hd, cinv_s h.c hd⟩
   | e a => exact inv_e h (step_e hs)
-  | g a => have hd := step_wd hs; exact ⟨minv_g h.m h.w hd, tinv_g h.t hd, finv_g h.f hd, ginv_g h.w hd⟩
+  | g a =>
+    have hd := step_wd hs
+    exact ⟨minv_g h.m h.w hd, tinv_g h.t hd, finv_g h.f hd, ginv_g h.w hd, by rw [g_step_frame hd]; exact ⟨h.c.fin, h.c.joined, h.c.cs, h.c.ret⟩⟩
 
 theorem inv_exec {s0 s : St} {ls : List Label} (h0 : Inv s0) (he : Exec s0 ls s) : Inv s := by
   induction he with
